@@ -469,6 +469,20 @@ impl Runtime {
             .unblock_runtimes_blocked_on_transferred_queries_owned_by(database_key, wait_result);
     }
 
+    /// Returns `true` if `query` has transferred its lock and the query at the end of the transfer
+    /// chain is owned by `thread_id`.
+    #[cold]
+    pub(super) fn is_owner_of_transferred_query(
+        &self,
+        query: DatabaseKeyIndex,
+        thread_id: ThreadId,
+    ) -> bool {
+        self.dependency_graph
+            .lock()
+            .thread_id_of_transferred_query(query, None)
+            == Some(thread_id)
+    }
+
     /// Removes the ownership transfer of `query`'s lock if it exists.
     ///
     /// If `query` has transferred its lock ownership to another query, this function will remove that transfer,
